@@ -65,17 +65,19 @@ type dialStep struct {
 type world struct {
 	seq atomic.Int64
 
-	mu       sync.Mutex
-	script   []dialStep
-	tailFail bool          // after the script is consumed: every dial fails (else: succeeds)
-	tailCN   time.Duration // close notice of tail incarnations
-	dials    []dialRec
-	incs     []*inc
-	firstOK  bool
-	lastEv   time.Time // time of the last dial / failure / handshake event (steering only)
-	budget   int       // redial budget of the transport under test
-	consec   int       // consecutive failed redial attempts
-	onExhaust func()   // called (no locks held) when consec reaches budget
+	mu           sync.Mutex
+	script       []dialStep
+	tailFail     bool          // after the script is consumed: every dial fails (else: succeeds)
+	tailCN       time.Duration // close notice of tail incarnations
+	dials        []dialRec
+	incs         []*inc
+	firstOK      bool
+	lastEv       time.Time     // time of the last dial / failure / handshake event (steering only)
+	budget       int           // redial budget of the transport under test
+	consec       int           // consecutive failed redial attempts
+	closeLatency time.Duration // set before the first dial, never changed
+	writeLatency time.Duration // set before the first dial, never changed
+	onExhaust    func()        // called (no locks held) when consec reaches budget
 }
 
 // attempt records the outcome of one redial attempt.
@@ -345,6 +347,9 @@ func (c *inc) Read() ([]byte, error) {
 }
 
 func (c *inc) Write(bs []byte) error {
+	if d := c.w.writeLatency; d > 0 {
+		time.Sleep(d) // the write is on its way; a connection closed meanwhile fails it (real clock only)
+	}
 	c.mu.Lock()
 	if c.closed {
 		c.rejected++
@@ -374,16 +379,21 @@ func (c *inc) CloseWithStatus(transport.CloseStatus) error {
 	if !c.closed {
 		c.closed = true
 		close(c.closedCh)
+		c.mu.Unlock()
+		if d := c.w.closeLatency; d > 0 {
+			time.Sleep(d) // a closing handshake takes time; the connection refuses writes meanwhile (real clock only)
+		}
+		return nil
 	}
 	c.mu.Unlock()
 	return nil
 }
 
-func (c *inc) RxBytesCounterValue() uint64                        { return 0 }
-func (c *inc) TxBytesCounterValue() uint64                        { return 0 }
+func (c *inc) RxBytesCounterValue() uint64                         { return 0 }
+func (c *inc) TxBytesCounterValue() uint64                         { return 0 }
 func (c *inc) AsUnreliable() (transport.UnreliableTransport, bool) { return nil, false }
-func (c *inc) NegotiationParams() transport.NegotiationParams     { return c.np }
-func (c *inc) Name() transport.Name                               { return transport.Name("c18-scripted") }
+func (c *inc) NegotiationParams() transport.NegotiationParams      { return c.np }
+func (c *inc) Name() transport.Name                                { return transport.Name("c18-scripted") }
 
 // ---------------------------------------------------------------------------------------------------------------------
 // recorder of library-level calls
